@@ -1,7 +1,7 @@
 #!/bin/bash
 # Mutant kill run: every seeded change (and every fix-revert) against the quick check of its property.
 # Writes /verif/seeded/MATRIX.tsv. /repo must be clean; it is restored after every run.
-cd /verif; out=seeded/MATRIX.tsv; : > $out
+cd /verif; out=${MATRIX_OUT:-seeded/MATRIX.tsv}; : > $out
 run() { # name patch prop
   res=$(tools/try_mutant.sh "$2" "$3" 2>&1 | tail -1)
   echo -e "$1\t$3\t$res" | tee -a $out
